@@ -74,8 +74,9 @@ vars == <<iface, changed, cur, live, shots, vg, last, handed>>
 (* but the catalogue does not publish, "unk" = a name nobody knows,           *)
 (* "empty" = "".                                                              *)
 Cats   == {"bkg", "dbd", "bad", "none"}      \* "background", "dbd", any other string, "" (reset value)
-Nucs   == {"pub", "pubp", "puba", "pubz", "unpub", "unk", "empty"}
-BkgPublished == {"pub", "pubp", "puba", "pubz"}
+\* "pubb": a name published in BOTH catalogues (Pb214, Po218, Rn222); instantiated on the background side only
+Nucs   == {"pub", "pubp", "puba", "pubz", "pubb", "unpub", "unk", "empty"}
+BkgPublished == {"pub", "pubp", "puba", "pubz", "pubb"}
 Seeds  == {"s1", "s2", "zero", "neg", "dflt"} \* two positive seeds, 0, a negative one, the reset value (1)
 Modes  == {0, 1, 4, 7, 20, 25}                \* 0 = undefined, 25 = beyond the last mode
 Levels == {-1, 0, 1, 9}
